@@ -2,7 +2,7 @@ package rapid
 
 // C13: MakeFuzz / checkFuzz on arbitrary bytes.
 
-var alphaFuzz = []uint8{opReturn, opDrawBool, opDrawByte, opDrawWord, opErrorf, opFatalA, opPanicStr, opSkip, opFatalIfBit}
+var alphaFuzz = []uint8{opReturn, opDrawBool, opDrawByte, opDrawWord, opDrawRune, opErrorf, opFatalA, opPanicStr, opSkip, opFatalIfBit}
 
 func symBytes(name string, n int) []byte {
 	b := make([]byte, 0, n)
@@ -34,7 +34,11 @@ func fuzzLen() int {
 
 func H_C13_fuzz() {
 	n := fuzzLen()
-	input := symBytes("b", n)
+	// the input is a prefix of a larger array (spare capacity, as a fuzzing engine or a caller
+	// slicing its own buffer would hand over): what lies behind it is not the fuzz target's to touch
+	backing := append(symBytes("b", n), 0xA5, 0x5A, 0xC3, 0x3C, 0x96, 0x69, 0xF0, 0x0F)
+	input := backing[:n]
+	before := append([]byte(nil), backing...)
 	k := 2
 	if thorough() {
 		k = 3
@@ -46,6 +50,9 @@ func H_C13_fuzz() {
 	runIsolated(func() { checkFuzz(tb, p.prop, input) })
 	inv := p.last()
 	vassert(len(p.invs) == 1, "C13: the fuzz target must run the property exactly once")
+	for i := range before {
+		vassert(backing[i] == before[i], "C13: the fuzz target modified its input (or the caller's memory behind it)")
+	}
 
 	// faithfulness: the same program replayed directly on the reference words
 	tb2 := newVTB("R")
